@@ -43,6 +43,7 @@ type c03Case struct {
 	Ring       bool       `json:"ring,omitempty"` // the producers are real AbacoRings over real shared-memory ring buffers the harness writes into
 	Slot       int        `json:"slot,omitempty"`       // ring mode: packet (slot) size announced in the ring description (0: 8192)
 	StartMid   int        `json:"start_mid_packet,omitempty"` // ring mode: the source is started while the data producer is this many bytes into a packet
+	RealSample bool       `json:"real_sample,omitempty"` // ring mode: the sampling phase uses AbacoRing.samplePackets itself (it ends on its time limit)
 	RingTight  int        `json:"ring_tight,omitempty"` // ring mode: 0 a ring of 256 slots; 1 a ring only a few slots larger than the largest batch (reads wrap around its end); 2 the same plus half a slot (the ring is no whole number of slots)
 	PriorSlot  int        `json:"prior_slot,omitempty"` // ring mode: the same AbacoRing objects were started and stopped before, on rings with this slot size
 	Seed       int        `json:"seed"`
@@ -99,6 +100,7 @@ type c03Producer struct {
 	ring    *AbacoRing             // ring mode: the real reader ...
 	writer  *ringbuffer.RingBuffer // ... and the harness' writing end of the same shared memory
 	ringErr string
+	realSample bool // ring mode: the sampling phase goes through the ring's own samplePackets
 	mu      sync.Mutex
 	sample  []*packets.Packet
 	ticks   [][]*packets.Packet
@@ -131,6 +133,14 @@ func (p *c03Producer) stop() error {
 // viaRing writes the packets into the shared-memory ring as the hardware's DMA does (one 8192-byte slot each) and
 // lets the real AbacoRing read them back.
 func (p *c03Producer) viaRing(ps []*packets.Packet) ([]*packets.Packet, error) {
+	if _, err := p.viaRingWrite(ps); err != nil {
+		return nil, err
+	}
+	return p.ring.ReadAllPackets()
+}
+
+// viaRingWrite is the writing half of viaRing.
+func (p *c03Producer) viaRingWrite(ps []*packets.Packet) (int, error) {
 	for _, q := range ps {
 		b := q.Bytes()
 		slot := make([]byte, (len(b)+p.slot-1)/p.slot*p.slot)
@@ -141,13 +151,20 @@ func (p *c03Producer) viaRing(ps []*packets.Packet) ([]*packets.Packet, error) {
 		}
 		if n, err := p.writer.Write(slot); err != nil || n != len(slot) {
 			p.ringErr = fmt.Sprintf("harness: ring took %d of %d bytes (%v)", n, len(slot), err)
-			return nil, fmt.Errorf("%s", p.ringErr)
+			return 0, fmt.Errorf("%s", p.ringErr)
 		}
 	}
-	return p.ring.ReadAllPackets()
+	return len(ps), nil
 }
 func (p *c03Producer) samplePackets(d time.Duration) ([]*packets.Packet, error) {
 	if p.ring != nil {
+		if p.realSample {
+			// the ring's own sampling step: fewer than its 100 packets arrive, so it ends on its time limit with what it has read
+			if _, err := p.viaRingWrite(p.sample); err != nil {
+				return nil, err
+			}
+			return p.ring.samplePackets(40 * time.Millisecond)
+		}
 		return p.viaRing(p.sample)
 	}
 	return p.sample, nil
@@ -435,6 +452,7 @@ func c03Run(c c03Case) (v vVerdict) {
 			}
 			r, _ := ringbuffer.NewRingBuffer(name+"_buffer", name+"_description")
 			pr.ring, pr.slot = &AbacoRing{ringnum: -1, ring: r}, slotSize
+			pr.realSample = c.RealSample
 			if c.PriorSlot != 0 {
 				// an earlier run of the same server on a ring with another packet size: started and stopped
 				w0, err := mk(c.PriorSlot)
@@ -670,6 +688,7 @@ func c03Gen(t *rapid.T) c03Case {
 		c.PriorSlot = rapid.SampledFrom([]int{0, 0, 8192, 4096, 16384}).Draw(t, "priorslot")
 		c.StartMid = rapid.SampledFrom([]int{0, 0, 8, 100, 3000, 4088}).Draw(t, "startmid")
 		c.RingTight = rapid.SampledFrom([]int{0, 1, 2, 2}).Draw(t, "ringtight")
+		c.RealSample = rapid.IntRange(0, 2).Draw(t, "realsample") == 0
 	}
 	first := rapid.SampledFrom([]int{0, 1, 100}).Draw(t, "firstchan")
 	var groups []c03Group
